@@ -122,6 +122,8 @@ def registry():
                      raises={'ValueError': ('only_if', 'True')},
                      ensures={'payload': 'self.payload == ' + content % (orem, orem),
                               'consumed': 's._index == old(s._index) + spec.der.tlv_size(%s)' % orem, 'valid': 'valid(s)',
+                              # the members cover the whole content: the local stream p over the payload is at its end
+                              'covers_payload': 'p._index == len(self.payload)',
                               'count': 'self._nr_elements is None or (len(self._seq) == self._nr_elements if isinstance(self._nr_elements, int) '
                                        'else len(self._seq) in self._nr_elements)'},
                      modifies=['s._index', 'self.payload', 'self._tag_octet', 'self._seq'],
